@@ -1,8 +1,10 @@
 CONSTANTS
   MaxLen = 5
   Widths <- WDeep
+  Kinds <- K6
   Heights <- HDeep
   Repaired = TRUE
+  Measure = TRUE
 SPECIFICATION Spec
 INVARIANTS OracleSane NoOverhang ImplConforms
 CHECK_DEADLOCK FALSE
